@@ -547,10 +547,10 @@ Section GetItem.
 
   (* getitem_positions, first half: __getitem__ is the "last call filling p" reading of the constructor's plan,
      and that plan fills every position with the right loader *)
-  Lemma getitem_int_spec : forall st items rc m,
+  Lemma getitem_core_spec : forall st items rc m,
     groups_ok (s_fused_ops value st) -> init_items value st items rc = inl m ->
     plan_ok (s_fused_ops value st) items (eff_plan items (m_plan m)) /\
-    forall idx, getitem_int value vint proj st m idx =
+    forall idx, getitem_core value vint proj st m idx =
                 sample_with_plan value vint proj st items (eff_plan items (m_plan m)) rc (norm_idx value st idx).
   Proof.
     intros st items rc m Hg Hinit.
@@ -561,7 +561,7 @@ Section GetItem.
       destruct (fuse_plan_ok (g :: gs) items Hg ltac:(discriminate)) as [plan' [Hf' Hok]].
       rewrite Hf in Hf'. inversion Hf'; subst. exact Hok. }
     rewrite Hp. split; [exact Hok|].
-    intro idx. unfold getitem_int, sample_with_plan. rewrite Hfn, Hpr, Hn, Hrc, Hi, Hp.
+    intro idx. unfold getitem_core, sample_with_plan. rewrite Hfn, Hpr, Hn, Hrc, Hi, Hp.
     rewrite run_fns_thread.
     destruct (thread value vint st (map fst (eff_plan items plan)) (norm_idx value st idx)
                 (if spec_propagate value st (map fst (eff_plan items plan)) rc then Some [] else None))
@@ -724,7 +724,7 @@ Section Positions.
   Qed.
 
   Definition res_out (r : res value) : option (out value) :=
-    match r with RItems o => Some o | RItemsCtx o _ => Some o | RErr => None end.
+    match r with RItems o => Some o | RItemsCtx o _ => Some o | RErr => None | RIndexErr => None end.
 
   Lemma comps_nth : forall (f : nat -> option value) n p, p < n -> nth p (map f (seq 0 n)) None = f p.
   Proof.
@@ -733,7 +733,7 @@ Section Positions.
 
   Theorem getitem_positions_lemma : forall st items rc m idx o,
     groups_ok (s_fused_ops value st) -> init_items value st items rc = inl m ->
-    res_out (getitem_int value vint proj st m idx) = Some o ->
+    res_out (getitem_core value vint proj st m idx) = Some o ->
     let plan := eff_plan items (m_plan m) in
     plan_ok (s_fused_ops value st) items plan /\
     length (out_list o) = length items /\
@@ -742,7 +742,7 @@ Section Positions.
                 (if spec_propagate value st (map fst plan) rc then Some [] else None) p (nth p (out_list o) None).
   Proof.
     intros st items rc m idx o Hg Hinit Hres plan.
-    destruct (getitem_int_spec value vint proj st items rc m Hg Hinit) as [Hok Hspec].
+    destruct (getitem_core_spec value vint proj st items rc m Hg Hinit) as [Hok Hspec].
     split; [exact Hok|]. rewrite Hspec in Hres. unfold sample_with_plan in Hres. fold plan in Hres.
     destruct (thread value vint st (map fst plan) (norm_idx value st idx)
                 (if spec_propagate value st (map fst plan) rc then Some [] else None)) as [[vals c]|] eqn:Et;
@@ -773,7 +773,7 @@ Section Pure.
     groups_ok (s_fused_ops value st) -> groups_named (s_fused_ops value st) ->
     pure_loaders value st value_of upd -> joint_consistent value proj st value_of ->
     init_items value st items rc = inl m ->
-    res_out value (getitem_int value vint proj st m idx) = Some o ->
+    res_out value (getitem_core value vint proj st m idx) = Some o ->
     forall p s, nth_error items p = Some s ->
       match classify s with
       | Index => nth p (out_list o) None = Some (vint (norm_idx value st idx))
@@ -823,14 +823,15 @@ Section Pure.
 
   Theorem getitem_shape_lemma : forall st items rc m idx,
     groups_ok (s_fused_ops value st) -> init_items value st items rc = inl m ->
-    match getitem_int value vint proj st m idx with
+    match getitem_core value vint proj st m idx with
     | RErr => exists s key, In s (m_names m) /\ classify s = Ctx key
     | RItems o => rc = false /\ length (out_list o) = length items /\ is_bare o = Nat.eqb (length items) 1
     | RItemsCtx o c => rc = true /\ length (out_list o) = length items /\ is_bare o = Nat.eqb (length items) 1
+    | RIndexErr => False
     end.
   Proof.
     intros st items rc m idx Hg Hinit.
-    destruct (getitem_int_spec value vint proj st items rc m Hg Hinit) as [_ Hspec]. rewrite Hspec.
+    destruct (getitem_core_spec value vint proj st items rc m Hg Hinit) as [_ Hspec]. rewrite Hspec.
     destruct (init_items_inv _ _ _ _ _ Hinit) as [plan [_ [_ [Hpl [_ [Hn _]]]]]]. rewrite Hn, Hpl.
     unfold sample_with_plan.
     destruct (thread value vint st (map fst (eff_plan items plan)) (norm_idx value st idx)
@@ -869,13 +870,13 @@ Section Pure.
      for THIS index *)
   Theorem ctx_fresh_lemma : forall st W items rc m idx o c,
     writes_within value st W -> init_items value st items rc = inl m ->
-    getitem_int value vint proj st m idx = RItemsCtx o c ->
+    getitem_core value vint proj st m idx = RItemsCtx o c ->
     exists d, c = Some d /\ forall k, In k (map fst d) ->
       exists s, In (Named s) (m_fns m) /\ In k (W s (norm_idx value st idx)).
   Proof.
     intros st W items rc m idx o c HW Hinit H.
     destruct (init_items_inv _ _ _ _ _ Hinit) as [plan [_ [_ [_ [Hrc [_ [_ Hpr]]]]]]].
-    unfold getitem_int in H.
+    unfold getitem_core in H.
     destruct (m_return_ctx m) eqn:Er.
     - assert (Hp : m_propagate m = true) by (rewrite Hpr; unfold spec_propagate; rewrite <- Hrc; reflexivity).
       rewrite Hp in H.
@@ -1126,9 +1127,37 @@ Section Sequence.
     getitem_int value vint proj st m i = getitem_int value vint proj st m (py_index (s_len value st) i) /\
     0 <= py_index (s_len value st) i < s_len value st.
   Proof.
-    intros st m i H. unfold getitem_int, norm_idx, py_index.
-    destruct (Z.ltb_spec i 0); [|lia]. destruct (Z.ltb_spec (s_len value st + i) 0); [lia|]. split; [reflexivity|lia].
+    intros st m i H. unfold getitem_int, getitem_core, norm_idx, py_index.
+    destruct (Z.ltb_spec i 0); [|lia]. destruct (Z.ltb_spec (s_len value st + i) 0); [lia|]. simpl. split; [reflexivity|lia].
   Qed.
+
+  (* the range check of the negative branch *)
+  Lemma getitem_int_in_range : forall st m i, - s_len value st <= i ->
+    getitem_int value vint proj st m i = getitem_core value vint proj st m i.
+  Proof.
+    intros st m i H. unfold getitem_int.
+    destruct (Z.ltb_spec i 0); [|reflexivity]. destruct (Z.ltb_spec (s_len value st + i) 0); [lia|reflexivity].
+  Qed.
+
+  Lemma getitem_core_not_indexerr : forall st m i, getitem_core value vint proj st m i <> RIndexErr.
+  Proof.
+    intros st m i. unfold getitem_core.
+    destruct (run_fns value vint st (m_fns m) (norm_idx value st i) (if m_propagate m then Some [] else None))
+      as [[vals c]|]; [|discriminate].
+    destruct (m_return_ctx m); discriminate.
+  Qed.
+
+  Theorem getitem_below_range_lemma : forall st m i, 0 <= s_len value st ->
+    (getitem_int value vint proj st m i = RIndexErr <-> i < - s_len value st).
+  Proof.
+    intros st m i Hl. unfold getitem_int.
+    destruct (Z.ltb_spec i 0); destruct (Z.ltb_spec (s_len value st + i) 0); simpl; split; intro H1;
+      try reflexivity; try lia; exfalso; eapply getitem_core_not_indexerr; eauto.
+  Qed.
+
+  (* what an in-range or above-range index does: the normalised index is handed to the loaders *)
+  Lemma norm_idx_py_index : forall st i, norm_idx value st i = py_index (s_len value st) i.
+  Proof. reflexivity. Qed.
 
   Theorem getitem_slice_lemma : forall st m a b s, 0 <= s_len value st ->
     match getitem value vint proj st m (ISlice a b s) with
